@@ -24,7 +24,7 @@ hide
 echo "== existing tests WITHOUT patch"; go test -vet=off -count=1 $pkgs 2>&1 | grep -E "^(--- FAIL|ok|FAIL|panic)" | sort > /tmp/seed-$tag.tests.without.txt
 unhide
 git -C $wt apply $out/patch.diff
-sed -E 's/[0-9.]+s$//' /tmp/seed-$tag.tests.with.txt > /tmp/a.$tag; sed -E 's/[0-9.]+s$//' /tmp/seed-$tag.tests.without.txt > /tmp/b.$tag
+sed -E 's/\(?[0-9.]+s\)?$//' /tmp/seed-$tag.tests.with.txt > /tmp/a.$tag; sed -E 's/\(?[0-9.]+s\)?$//' /tmp/seed-$tag.tests.without.txt > /tmp/b.$tag
 if diff /tmp/a.$tag /tmp/b.$tag > /dev/null; then same=true; else same=false; diff /tmp/a.$tag /tmp/b.$tag | head; fi
 echo "demo rc with=$rcw without=$rco ; existing tests identical=$same"
 if [ $rcw -ne 0 ] && [ $rco -eq 0 ]; then
